@@ -11,7 +11,8 @@
      ridx N j k = (j + N - k) mod N,  midx N j = (N - j) mod N
      shifted nf N k S' S     S'[i][j] = S[i][ridx N j k] for i < nf, j < N;   mirrored likewise with midx
      rotate2 a (e, n)        (cos a * e - sin a * n, sin a * e + cos a * n)
-     rot_angle k N           k * 2 pi / N  *)
+     rot_angle k N           k * 2 pi / N
+     flip2 (e, n)            (e, - n)  *)
 From Coq Require Import Reals List Arith Lra.
 From OSU.Lib Require Import SrcAuxDefs SrcAuxRot.
 From OSU.Model Require Import SourceTerms Stress.
@@ -117,6 +118,100 @@ Theorem solver_ext : forall (solver : (R -> R) -> R) p w depth g x0of E th0 ds k
   solver (stress_iteration_function p (rot_wind w k (ndir g)) depth g x0of (rot_field k E))
   = solver (stress_iteration_function p w depth g x0of E).
 Proof. exact solver_ext. Qed.
+
+(* ---------------- mirror image of the stress: east kept, north negated ---------------- *)
+Theorem resolved_stress_mirror : forall p g ks ds S' S,
+  uniform_dirs g 0 ds -> (0 < ndir g)%nat ->
+  (forall i j, (i < nfreq g)%nat -> (j < ndir g)%nat -> fnth S' i j = fnth S i (midx (ndir g) j)) ->
+  resolved_stress p g ks S' = flip2 (resolved_stress p g ks S).
+Proof. exact resolved_stress_mirror. Qed.
+
+Theorem tail_stress_mirror : forall p w z0 g x0 E ds,
+  uniform_dirs g 0 ds -> (0 < ndir g)%nat -> well_shaped g E ->
+  tail_stress_wam p (mir_wind w) z0 g x0 (mir_field E) = flip2 (tail_stress_wam p w z0 g x0 E).
+Proof. exact tail_stress_mirror. Qed.
+
+Theorem stress_vector_mirror : forall p w depth z0 g x0 E ds,
+  uniform_dirs g 0 ds -> (0 < ndir g)%nat -> well_shaped g E ->
+  total_stress_vec p (mir_wind w) depth z0 g x0 (mir_field E)
+  = flip2 (total_stress_vec p w depth z0 g x0 E).
+Proof. exact total_stress_vec_mirror. Qed.
+
+(* magnitude invariant, direction negated modulo 360 (vector form) *)
+Theorem stress_magnitude_direction_mirror : forall p w depth z0 g x0 E ds,
+  uniform_dirs g 0 ds -> (0 < ndir g)%nat -> well_shaped g E ->
+  friction_velocity p w z0 <> 0 ->
+  let v := total_stress_vec p w depth z0 g x0 E in
+  (fst v <> 0 \/ snd v <> 0) ->
+  exists d d',
+    total_stress_point p w depth z0 g x0 E = (sqrt (snd v ^ 2 + fst v ^ 2), Some d) /\
+    total_stress_point p (mir_wind w) depth z0 g x0 (mir_field E) = (sqrt (snd v ^ 2 + fst v ^ 2), Some d') /\
+    0 <= d' < 360 /\
+    cos (d' * PI / 180) = cos (- d * PI / 180) /\ sin (d' * PI / 180) = sin (- d * PI / 180).
+Proof. exact total_stress_point_mirror. Qed.
+
+(* ---------------- whitecapping fields shift by k bins / are mirrored ---------------- *)
+Theorem st6_diss_rot : forall q depth g E th0 ds k,
+  uniform_dirs g th0 ds -> (k < ndir g)%nat -> well_shaped g E ->
+  forall i j, (i < nfreq g)%nat -> (j < ndir g)%nat ->
+  fnth (st6_dissipation q depth g (rot_field k E)) i j
+  = fnth (st6_dissipation q depth g E) i (ridx (ndir g) j k).
+Proof. exact st6_diss_rot. Qed.
+
+Theorem st6_diss_mirror : forall q depth g E ds,
+  uniform_dirs g 0 ds -> (0 < ndir g)%nat -> well_shaped g E ->
+  forall i j, (i < nfreq g)%nat -> (j < ndir g)%nat ->
+  fnth (st6_dissipation q depth g (mir_field E)) i j
+  = fnth (st6_dissipation q depth g E) i (midx (ndir g) j).
+Proof. exact st6_diss_mirror. Qed.
+
+(* ST4: band-integrated saturation over +-width with the wrapped mutual angle, its row maximum,
+   the cumulative term with the wave-speed vector differences *)
+Theorem st4_diss_rot : forall q depth g E th0 ds k,
+  uniform_dirs g th0 ds -> (k < ndir g)%nat -> well_shaped g E ->
+  forall i j, (i < nfreq g)%nat -> (j < ndir g)%nat ->
+  fnth (st4_dissipation q depth g (rot_field k E)) i j
+  = fnth (st4_dissipation q depth g E) i (ridx (ndir g) j k).
+Proof. exact st4_diss_rot. Qed.
+
+Theorem st4_diss_mirror : forall q depth g E ds,
+  uniform_dirs g 0 ds -> (0 < ndir g)%nat -> well_shaped g E ->
+  forall i j, (i < nfreq g)%nat -> (j < ndir g)%nat ->
+  fnth (st4_dissipation q depth g (mir_field E)) i j
+  = fnth (st4_dissipation q depth g E) i (midx (ndir g) j).
+Proof. exact st4_diss_mirror. Qed.
+
+Theorem st4_diss_bulk_rot : forall q depth g E th0 ds k,
+  uniform_dirs g th0 ds -> (k < ndir g)%nat -> well_shaped g E ->
+  bulk g (st4_dissipation q depth g (rot_field k E)) = bulk g (st4_dissipation q depth g E).
+Proof. exact st4_diss_bulk_rot. Qed.
+
+Theorem st6_diss_bulk_rot : forall q depth g E th0 ds k,
+  uniform_dirs g th0 ds -> (k < ndir g)%nat -> well_shaped g E ->
+  bulk g (st6_dissipation q depth g (rot_field k E)) = bulk g (st6_dissipation q depth g E).
+Proof. exact st6_diss_bulk_rot. Qed.
+
+(* ---------------- dissipation-weighted wave direction ---------------- *)
+(* for every dissipation field that shifts with the spectrum (ST4 and ST6 do, above) *)
+Theorem diss_direction_rot : forall depth g th0 ds k D' D,
+  uniform_dirs g th0 ds -> (k < ndir g)%nat ->
+  (forall i j, (i < nfreq g)%nat -> (j < ndir g)%nat -> fnth D' i j = fnth D i (ridx (ndir g) j k)) ->
+  let v := diss_k_vector g (wavenumbers GRAV depth (g_w g)) D in
+  (fst v <> 0 \/ snd v <> 0) ->
+  cos (diss_direction depth g D' * PI / 180)
+    = cos ((diss_direction depth g D + INR k * (360 / INR (ndir g))) * PI / 180) /\
+  sin (diss_direction depth g D' * PI / 180)
+    = sin ((diss_direction depth g D + INR k * (360 / INR (ndir g))) * PI / 180).
+Proof. exact diss_direction_rot. Qed.
+
+Theorem diss_direction_mirror : forall depth g ds D' D,
+  uniform_dirs g 0 ds -> (0 < ndir g)%nat ->
+  (forall i j, (i < nfreq g)%nat -> (j < ndir g)%nat -> fnth D' i j = fnth D i (midx (ndir g) j)) ->
+  let v := diss_k_vector g (wavenumbers GRAV depth (g_w g)) D in
+  (fst v <> 0 \/ snd v <> 0) ->
+  cos (diss_direction depth g D' * PI / 180) = cos (- diss_direction depth g D * PI / 180) /\
+  sin (diss_direction depth g D' * PI / 180) = sin (- diss_direction depth g D * PI / 180).
+Proof. exact diss_direction_mirror. Qed.
 
 (* ---------------- the premises are satisfiable ---------------- *)
 Example uniform_grid_example :
